@@ -268,6 +268,7 @@ PROPS["C18"] = {
 
 # Proposed block for tools/qvconfig.py (written by the C15 helper; not applied).
 PROPS["C15"] = {
+    "no_escalation": True,  # the thorough tier spawns thousands of processes: a moved source pin is reported, the search stays quick
     "gen": [],
     "lean": ["QV.Props.C15"],
     "streams": ["c15"],
@@ -475,6 +476,7 @@ PROPS["C20"] = {
 
 # proposed block for tools/qvconfig.py (written by the C07 helper; not applied)
 PROPS["C07"] = {
+    "no_escalation": True,  # the thorough tier spawns thousands of processes: a moved source pin is reported, the search stays quick
     "gen": ["panic_sites.py"],
     "lean": ["QV.Props.C07"],
     "streams": ["c07"],
